@@ -24,6 +24,15 @@ C["C03"] = dict(
     text="sequential bounded-exhaustive enumeration of the configuration grid (memory sizes 0..64KiB/1MiB incl. degenerate ones, start offsets, all ordered lists of 1-3 (size,percent) pairs from boundary menus with sizes <= memory size): real createBufferManager either errors or yields classes whose slots are inside the mapping, behind their headers and pairwise disjoint; real mappingBufferManager on the same bytes reconstructs identical classes, capacities, offsets and cursors; patterns written through one view are read through the other; alloc-all/recycle-all restores the chain; queue pairs of every capacity are cross-wired; both real back-ends (/dev/shm file, memfd) with a second mapping as the peer",
     note="no panic is tolerated (recovered and reported); the alloc/recycle round trip is skipped for configurations with duplicate class sizes and for classes with more than 4096 slots (layout arithmetic is still checked for every slot)",
     technique="explicit enumeration of all configurations of a bounded grid on the real layout code with a reference interval/aliasing oracle", design="DESIGN.md section 4 C03")
+TECH_S = "explicit-state breadth-first search over operation histories on the real implementation (fresh instance + replay per transition), states deduplicated by a canonical abstraction, every step compared with a reference model written in Go"
+C["C06"] = dict(
+    text="all histories up to the tier's depth over the writer alphabet {WriteBytes, Reserve, WriteByte, WriteString, Write, Flush} x sizes {1,c-1,c,c+1,2c+1,>largest class} and the reader alphabet {ReadBytes, Peek, Discard, ReadByte, ReadString, Read, ReleasePreviousRead, ReleaseReadAndReuse, adversary} x the same sizes plus 0, on real streams of two minimal sessions (real Flush incl. socket fallback via the real send loop, real handleEvents/handlePolling/handleFallbackData, real readMore/moveTo), for 3 slice-size configurations x 3 exhaustion patterns, one- and two-directional; byte-queue reference model (every returned byte, Len of reader and writer, Peek consumes nothing); every new state is completed twice (drain+release+close, and close-only) and must leave nothing allocated",
+    note="sequential (no concurrency; blocking reads are C11); control connection is a recording stub that delivers every written event to the peer's real handleEvents right after the flush; depth 4/3 quick, 5/4 thorough",
+    technique=TECH_S, design="DESIGN.md section 4 C06")
+C["C08"] = dict(
+    text="inside the same search as C06: every slice returned by ReadBytes/Peek is remembered with its expected bytes and re-compared after every later operation (further reads, writes in both directions, an adversary that allocates every free buffer, fills it with 0xEE and recycles it) until ReleasePreviousRead / ReleaseReadAndReuse / Close; after release (drain+release+close and close-only completions of every state) no buffer remains allocated",
+    note="as C06",
+    technique=TECH_S, design="DESIGN.md section 4 C08")
 NA = {}
 m = {
     "version": 1,
